@@ -63,7 +63,7 @@ CHECKS = {
     "C07": dict(
         engine="bfs",
         technique="explicit-state BFS over submission/claim/finish histories per registration configuration on both backends against a reference dict key -> REGISTERED invocation",
-        text="For each of 8 configurations (DISABLED, TASK, ARGUMENTS, KEYS with key sets (a), (b), (a,b), (), raise option on/off) a breadth-first search to depth 5 (7) over 5 submissions (argument values with repeats, positional and keyword spelling), claim and finish on the in-memory and SQLite stacks; after every step the returned identity (new / reused / raised), total and REGISTERED counts, queue length, statuses and history lengths are compared with the reference model and between the backends, and the invariant <= 1 REGISTERED invocation per key is evaluated on the real state.",
+        text="For each of 11 configurations (DISABLED, TASK, ARGUMENTS, KEYS with key sets (a), (b), (a,b), (), raise option on/off; three of them again with every argument value externalised to the client data store) a breadth-first search to depth 5 (7) over 5 submissions (argument values with repeats, positional and keyword spelling), claim and finish on the in-memory and SQLite stacks; after every step the returned identity (new / reused / raised), total and REGISTERED counts, queue length, statuses and history lengths are compared with the reference model and between the backends, and the invariant <= 1 REGISTERED invocation per key is evaluated on the real state.",
         note="Sequential submissions only (as the statement says); raise option only combined with KEYS. States merged only when the canonical concrete dump (records, argument index, queue) of both backends is equal.",
         design_ref="§2 C07",
     ),
